@@ -155,3 +155,29 @@ func (v *VerifCmdController) VerifCmdRequests() []apis.Request {
 	}
 	return out
 }
+
+// VerifCmdStartInformers starts the controller's own volcano informer factory (the one
+// the filtered Command handler was registered on in Initialize) against the client given
+// to VerifCmdNewController and waits for the sync: Commands created in that client
+// afterwards reach the controller through the real informer -> filter -> addCommand path.
+func (v *VerifCmdController) VerifCmdStartInformers(stopCh <-chan struct{}) {
+	v.cc.vcInformerFactory.Start(stopCh)
+	for typ, ok := range v.cc.vcInformerFactory.WaitForCacheSync(stopCh) {
+		if !ok {
+			panic("informer cache failed to sync: " + typ.String())
+		}
+	}
+}
+
+// VerifCmdPendingNames lists namespace/name of the Commands waiting in the command queue.
+func (v *VerifCmdController) VerifCmdPendingNames() []string {
+	v.cq.mu.Lock()
+	defer v.cq.mu.Unlock()
+	var out []string
+	for _, it := range v.cq.items {
+		if c, ok := it.(*bus.Command); ok {
+			out = append(out, c.Namespace+"/"+c.Name)
+		}
+	}
+	return out
+}
